@@ -12,7 +12,7 @@ from ..monitors import construct
 DECIDING_MONITORS = ["C01.h1.post"]
 PASSIVE_UNDER_TESTS = True
 RULE = ("cases = h1(data, bins, weights, dtype, keep_missed, dropna) with data aimed at every edge (on it, one ulp beside), "
-        "gaps, far outside, NaN; bins as edges/pairs/gapped pairs/binning objects/int/method names; "
+        "gaps (also gaps far below numpy's allclose tolerance), far outside, NaN / None / object arrays; bins as edges/pairs/gapped pairs/binning objects/int/method names; "
         "non-trivial = >= 2 bins, >= 1 value on or one ulp beside an edge, >= 2 different destinations "
         "(bin/underflow/overflow/gap/NaN) occupied; distinct by hash of (bins, data, weights, flags)")
 ASSUMPTIONS = [
